@@ -479,6 +479,85 @@ func factsAt(b *ssa.BasicBlock, depth int) []Fact {
 			out = append(out, condFacts(ifi, ifi.Cond, false, depth)...)
 		}
 	}
+	// inductive facts about the counters of rotated loops (for i := range n), whose
+	// test sits on the entry edge and on the back edge instead of in a dominating header
+	for h := b; h != nil; h = h.Idom() {
+		out = append(out, loopCounterFacts(h, depth)...)
+	}
+	return out
+}
+
+// ownEdgeAtoms: the atoms established by the branch at the end of pred on its edge to succ.
+func ownEdgeAtoms(pred, succ *ssa.BasicBlock, depth int) ([]Fact, *ssa.If) {
+	if len(pred.Instrs) == 0 {
+		return nil, nil
+	}
+	ifi, ok := pred.Instrs[len(pred.Instrs)-1].(*ssa.If)
+	if !ok || len(pred.Succs) != 2 || pred.Succs[0] == pred.Succs[1] {
+		return nil, nil
+	}
+	switch succ {
+	case pred.Succs[0]:
+		return condFacts(ifi, ifi.Cond, true, depth+1), ifi
+	case pred.Succs[1]:
+		return condFacts(ifi, ifi.Cond, false, depth+1), ifi
+	}
+	return nil, nil
+}
+
+// loopCounterFacts derives, for a block h with two predecessors and an integer phi
+// c = φ(init, c+d), the atoms A(c) that hold whenever h is entered: the back edge
+// establishes A for the next value (its branch tests c+d) and the entry edge
+// establishes A(init). Only the branch at the end of each predecessor is used.
+func loopCounterFacts(h *ssa.BasicBlock, depth int) []Fact {
+	if len(h.Preds) != 2 || depth > 4 {
+		return nil
+	}
+	var out []Fact
+	for _, in := range h.Instrs {
+		ph, ok := in.(*ssa.Phi)
+		if !ok {
+			break
+		}
+		if !isIntegral(ph.Type()) || len(ph.Edges) != 2 {
+			continue
+		}
+		name := Term(ph)
+		for k := 0; k < 2; k++ {
+			step := Linearize(ph.Edges[k])
+			if len(step.Coef) != 1 || step.Coef[name] != 1 || step.K == 0 {
+				continue
+			}
+			d := step.K
+			backFacts, backIf := ownEdgeAtoms(h.Preds[k], h, depth)
+			initPred := h.Preds[1-k]
+			initFacts, _ := ownEdgeAtoms(initPred, h, depth)
+			if initPred != h && !h.Dominates(initPred) {
+				initFacts = append(initFacts, factsAt(initPred, depth+1)...)
+			}
+			v0 := Linearize(ph.Edges[1-k])
+			for _, f := range backFacts {
+				c, mentions := f.Atom.L.Coef[name]
+				if f.Atom.Kind != LE || !mentions || f.If != backIf {
+					continue
+				}
+				// f: L(c) <= 0 holds for the value c+d that the phi takes next: A(x) = L(x-d)
+				inv := f.Atom.L.scale(1)
+				inv.K -= c * d
+				// A(init)
+				atInit := inv.add(Lin{Coef: map[string]int64{name: c}}, -1).add(v0.scale(c), 1)
+				okInit := false
+				if atInit.isConst() {
+					okInit = atInit.K <= 0
+				} else {
+					okInit = holds(initFacts, Atom{Kind: LE, L: atInit}, false)
+				}
+				if okInit {
+					out = append(out, Fact{Atom{Kind: LE, L: inv, NonNeg: f.Atom.NonNeg}, backIf})
+				}
+			}
+		}
+	}
 	return out
 }
 
